@@ -344,9 +344,32 @@ func sraRound(pkgs []*packages.Package, overlay map[string][]byte) (map[string][
 					if bad[u.sv.obj] != "" {
 						continue
 					}
-					if u.extra != nil {
-						if _, ok := litFields(u.sv, u.extra.(*ast.CompositeLit)); !ok {
+					if cl, isLit := u.extra.(*ast.CompositeLit); isLit {
+						if _, ok := litFields(u.sv, cl); !ok {
 							bad[u.sv.obj] = "unsupported literal"
+						}
+					}
+				}
+				// a copy needs both ends replaced
+				for pass := 0; pass < 3; pass++ {
+					for _, u := range uses {
+						if u.kind != "copy-assign" && u.kind != "copy-define" && u.kind != "var-copy" {
+							continue
+						}
+						rid, _ := u.extra.(*ast.Ident)
+						if rid == nil {
+							continue
+						}
+						rv, _ := pkg.TypesInfo.Uses[rid].(*types.Var)
+						if rv == nil || cands[rv] == nil {
+							bad[u.sv.obj] = "copied from something that is not replaced"
+							continue
+						}
+						if bad[rv] != "" && bad[u.sv.obj] == "" {
+							bad[u.sv.obj] = "copied from a variable that is not replaced"
+						}
+						if bad[u.sv.obj] != "" && bad[rv] == "" {
+							bad[rv] = "copied into a variable that is not replaced"
 						}
 					}
 				}
